@@ -199,9 +199,8 @@ def run(run):
     run.outside = ["n > 5 or m > 4 for the kernel", "non-unit ranking weights", "float64 rounding, NaN/inf"]
     run.rule = ("kernel: one solver query per output cell / mirror pair / obligation; glue: one path per enumerated dataset, "
                 "one query per cell and per candidate ranking; non-trivial = query whose precondition is satisfiable")
-    validate_interpreter(run.seed, 25 if not run.thorough else 100)
-    res = harness.pmap(kernel_check, kern)
-    run.add_candidates(res)
+    run.part("validate_interpreter", lambda: validate_interpreter(run.seed, 25 if not run.thorough else 100))
+    run.pmap("kernel_check", kernel_check, kern)
     items = []
     for n, m in glue_sets:
         namings = [list(range(1, n + 1)), ["b", "a", "c", "d"][:n]] if n > 1 else [[7]]
@@ -213,8 +212,7 @@ def run(run):
         lvs = (rnd.choice(r4), rnd.choice(r4))
         if all(any(r[e] != -1 for r in lvs) for e in range(4)):
             items.append((lvs, [4, 2, 3, 1]))
-    res = harness.pmap(glue_item, items, chunksize=8)
-    run.add_candidates(res)
+    run.pmap("glue_item", glue_item, items, chunksize=8)
     run.extra["glue_datasets"] = len(items)
 
 
